@@ -318,10 +318,105 @@ def translate_variants():
     return {"owner_appends_slash": appends, "glob_scans_products": scans}
 
 
+# ---------------------------------------------------------------------------------------------
+# The statements that write the `nglob` table (life cycle of registrations, model/GlobRows.v)
+# ---------------------------------------------------------------------------------------------
+
+import re as _re
+
+_NGLOB_WRITE = _re.compile(
+    r"\b(DELETE\s+FROM|INSERT\s+(?:OR\s+\w+\s+)?INTO|REPLACE\s+INTO|UPDATE(?:\s+OR\s+\w+)?|"
+    r"DROP\s+TABLE(?:\s+IF\s+EXISTS)?|ALTER\s+TABLE|CREATE\s+TRIGGER[^;]*?\bON)\s+nglob\b[^;]*",
+    _re.IGNORECASE | _re.DOTALL)
+
+# (file, enclosing function, statement with whitespace normalised): what model/GlobRows.v's
+# operations OAdd / OPersist / OReset stand for.
+EXPECTED_NGLOB_WRITES = [
+    ("stepup/core/step.py", "Step.add_nglob", "INSERT INTO nglob(node, pattern, regex, data) VALUES (?, ?, ?, ?)"),
+    ("stepup/core/step.py", "Step.reset_for_rerun", "DELETE FROM nglob WHERE node = ?"),
+    ("stepup/core/workflow.py", "Workflow.persist_nglob_matches", "UPDATE nglob SET data = ? WHERE i = ?"),
+]
+# callers of the writers: (file, function) that may call them
+EXPECTED_NGLOB_CALLERS = {
+    "add_nglob": [("stepup/core/workflow.py", "Workflow.register_nglob")],
+    "persist_nglob_matches": [("stepup/core/startup.py", "rescan_nglobs"),
+                              ("stepup/core/workflow.py", "Workflow.process_nglob_changes")],
+    "reset_for_rerun": [("stepup/core/executor.py", None)],
+}
+_NGLOB_DDL = ("CREATE TABLE IF NOT EXISTS nglob ( i INTEGER PRIMARY KEY, node INTEGER NOT NULL, pattern TEXT NOT NULL, "
+              "regex TEXT NOT NULL, data TEXT NOT NULL, FOREIGN KEY (node) REFERENCES node(i) ON DELETE CASCADE )")
+
+
+def _norm_sql(text):
+    return " ".join(text.split())
+
+
+def translate_nglob_sites():
+    """Enumerate every SQL statement in stepup/core that writes the nglob table, the table's DDL,
+    the statements that delete node rows (ON DELETE CASCADE) and the callers of the writers.
+    Returns (facts, error): error is a message when anything differs from what model/GlobRows.v
+    was written against (a new DELETE FROM nglob, a writer called from a new place, ...)."""
+    from .astutil import REPO, functions_with_parents
+    core = REPO / "stepup" / "core"
+    writes, node_deletes, callers, ddl = [], [], {k: [] for k in EXPECTED_NGLOB_CALLERS}, []
+    for path in sorted(core.glob("*.py")):
+        rel = str(path.relative_to(REPO))
+        tree = parse_module(rel)
+        owner = {}
+        for qn, fn in functions_with_parents(tree):
+            for n in ast.walk(fn):
+                owner[id(n)] = qn          # innermost wins: inner functions are visited later
+        for n in ast.walk(tree):
+            if isinstance(n, ast.Constant) and isinstance(n.value, str):
+                text = n.value
+                # SQL comment lines (the schema documents itself in `-- ...` lines)
+                text = "\n".join(ln for ln in text.splitlines() if not ln.strip().startswith("--"))
+                for m in _NGLOB_WRITE.finditer(text):
+                    writes.append((rel, owner.get(id(n), "<module>"), _norm_sql(m.group(0))))
+                for m in _re.finditer(r"CREATE\s+TABLE[^;]*?\bnglob\s*\([^;]*", text, _re.IGNORECASE | _re.DOTALL):
+                    ddl.append(_norm_sql(m.group(0)))
+                for m in _re.finditer(r"DELETE\s+FROM\s+node\b[^;]*", text, _re.IGNORECASE):
+                    node_deletes.append((rel, owner.get(id(n), "<module>"), _norm_sql(m.group(0))))
+            if isinstance(n, ast.Call) and isinstance(n.func, ast.Attribute) and n.func.attr in callers:
+                callers[n.func.attr].append((rel, owner.get(id(n), "<module>")))
+    facts = {"writes": sorted(set(writes)), "node_deletes": sorted(set(node_deletes)),
+             "callers": {k: sorted(set(v)) for k, v in callers.items()}, "ddl": ddl}
+    errs = []
+    extra = [w for w in facts["writes"] if w not in EXPECTED_NGLOB_WRITES]
+    missing = [w for w in EXPECTED_NGLOB_WRITES if w not in facts["writes"]]
+    for rel, fn, stmt in extra:
+        errs.append(f"unexpected statement writing the nglob table in {rel}:{fn}: {stmt!r} "
+                    "(model/GlobRows.v knows INSERT in Step.add_nglob, UPDATE data in persist_nglob_matches, "
+                    "DELETE of all rows of a step in Step.reset_for_rerun)")
+    for rel, fn, stmt in missing:
+        errs.append(f"expected statement not found in {rel}:{fn}: {stmt!r}")
+    if facts["ddl"] != [_NGLOB_DDL]:
+        errs.append(f"DDL of the nglob table changed: {facts['ddl']!r}")
+    if facts["node_deletes"] != [("stepup/core/trellis.py", "Trellis.delete_detached", "DELETE FROM node where i = ?")]:
+        errs.append(f"node rows are deleted (ON DELETE CASCADE removes nglob rows) at unexpected sites: {facts['node_deletes']!r}")
+    for name, exp in EXPECTED_NGLOB_CALLERS.items():
+        for rel, fn in facts["callers"][name]:
+            if not any(rel == e_rel and (e_fn is None or e_fn == fn) for e_rel, e_fn in exp):
+                errs.append(f"{name} is called from an unexpected place: {rel}:{fn}")
+    # register_nglob itself: the only database writes are the scratch table path_list and add_nglob
+    fn = find_function(parse_module(WF), "register_nglob", cls="Workflow")
+    sql = [_norm_sql(c) for c in (x.value for x in ast.walk(fn) if isinstance(x, ast.Constant) and isinstance(x.value, str))
+           if _re.match(r"\s*(DELETE|INSERT|UPDATE|REPLACE|DROP|ALTER)\b", c, _re.IGNORECASE)]
+    if sql != ["DELETE FROM path_list", "INSERT INTO path_list VALUES (?)"]:
+        errs.append(f"register_nglob writes the database in an unexpected way: {sql!r}")
+    calls = [ast.unparse(n.func) for n in ast.walk(fn) if isinstance(n, ast.Call)
+             and isinstance(n.func, ast.Attribute) and isinstance(n.func.value, ast.Name)
+             and n.func.value.id in ("step", "self")]
+    if sorted(calls) != ["self.watch_nglob_dirs", "step.add_nglob"]:
+        errs.append(f"register_nglob calls unexpected methods of the step / workflow: {sorted(calls)!r}")
+    return facts, ("; ".join(errs) if errs else None)
+
+
 def generate(check_skeletons=True):
     msgs, skel = translate_messages(check_skeletons)
     tab = translate_tables()
     var = translate_variants()
+    sites, sites_error = translate_nglob_sites()
     L = ["(* GENERATED by translator/gen_claims.py from /repo -- do not edit *)",
          "From Coq Require Import List NArith.",
          "From SV Require Import lib.Bytes lib.Tmpl.",
@@ -374,8 +469,14 @@ def generate(check_skeletons=True):
         L.append(f"(* {doc[key]} *)")
         L.append(f"Definition {nm} : tmpl := {coq_tmpl(t)}.")
     L.append("(* skeletons: " + ", ".join(f"{k}={v}" for k, v in sorted(skel.items())) + " *)")
+    L.append("(* every statement of stepup/core that writes the nglob table (model/GlobRows.v: OAdd, OReset, OPersist;"
+             " OPurge is the ON DELETE CASCADE of Trellis.delete_detached): (file, function, statement) *)")
+    L.append("Definition nglob_writes : list (str * (str * str)) := [\n  "
+             + ";\n  ".join(f"({coq_str(a)}, ({coq_str(b)}, {coq_str(c)})) (* {a}:{b}: {c} *)" for a, b, c in sites["writes"])
+             + "].")
     return "\n".join(L) + "\n", {"skeletons": skel, "tables": tab, "variants": var,
-                                  "messages": {k: v for k, v in msgs.items()}}
+                                  "messages": {k: v for k, v in msgs.items()},
+                                  "nglob_sites": sites, "nglob_sites_error": sites_error}
 
 
 if __name__ == "__main__":
